@@ -228,6 +228,176 @@ theorem load_sound (c : Codec V) (blob : Bytes) (f : Nat) (v : V) (h : load c bl
               exact ⟨l, hl, Or.inr ⟨fmt, read, plain, read', hlf, hx, by simp [hy], hg, hlf', hd⟩⟩
         · simp at h
 
+/-! ### FormatFromAccept: declarative characterisation, range, fix-point on the mime table -/
+
+/-- The loop, said declaratively: the first element whose cleaned name is in `MimeTypeToFormat` decides; otherwise
+    the default if some element cleans to `*`; otherwise AUTO; the empty header is the default. -/
+theorem formatFromAccept_spec (a : Str) :
+    formatFromAccept a =
+      if a = [] then defaultSerializationFormat
+      else match (splitOn 44 a).findSome? (fun e => lookup (cleanMime e) mimeTypeToFormat) with
+        | some f => f
+        | none => if (splitOn 44 a).any (fun e => cleanMime e == [42]) = true
+                  then defaultSerializationFormat else AUTO := by
+  unfold formatFromAccept
+  by_cases ha : a = []
+  · simp [ha]
+  · simp only [ha, ite_false, ffaLoop_spec, Bool.false_or]
+    rfl
+
+theorem formatFromAccept_in_range (a : Str) :
+    formatFromAccept a = AUTO ∨ formatFromAccept a ∈ defaultSerializationFormat :: mimeTypeToFormat.map Prod.snd :=
+  formatFromAccept_range a
+
+/-- The mime type written for a format is read back as that format (whole regenerated table). -/
+theorem formatFromAccept_mime_fixpoint : ∀ p ∈ formatToMimeType, formatFromAccept p.2 = p.1 :=
+  fun p hp => (mime_table p hp).1
+
+/-- Every Accept header with an element that names a supported format or is a wildcard (independent reading of
+    the grammar, PB/Spec/Dsd.lean) gets a format, and that format has a mime type. -/
+theorem accept_named_or_wildcard (a : Str)
+    (h : ∃ e ∈ splitOn 44 a, (∃ f, NamesFormat e f) ∨ IsWildcard e) :
+    formatFromAccept a ≠ AUTO ∧ (lookup (formatFromAccept a) formatToMimeType).isSome = true := by
+  have key : formatFromAccept a ∈ defaultSerializationFormat :: mimeTypeToFormat.map Prod.snd := by
+    rw [formatFromAccept_spec]
+    by_cases ha : a = []
+    · simp [ha]
+    · simp only [ha, ite_false]
+      cases hf : (splitOn 44 a).findSome? (fun e => lookup (cleanMime e) mimeTypeToFormat) with
+      | some f =>
+        obtain ⟨e, _, he⟩ := findSome?_some_mem _ _ f hf
+        exact List.mem_cons_of_mem _ (lookup_snd_mem _ _ _ he)
+      | none =>
+        have hnone := findSome?_none_all _ _ hf
+        obtain ⟨e, hmem, hne⟩ := h
+        have hw : cleanMime e = [42] := by
+          rcases hne with ⟨f, sub, hsub, hl⟩ | hw
+          · have := hnone e hmem
+            rw [cleanMime_element e sub hsub, hl] at this
+            cases this
+          · have := cleanMime_element e [42] hw
+            simpa [asciiLower] using this
+        have : (splitOn 44 a).any (fun e => cleanMime e == [42]) = true :=
+          List.any_eq_true.mpr ⟨e, hmem, by simp [hw]⟩
+        simp [this]
+  exact accept_range_table _ key
+
+/-- The first element decides when it names a supported format. -/
+theorem accept_first_named (e rest : Str) (f : Nat) (hc : 44 ∉ e) (h : NamesFormat e f) :
+    formatFromAccept e = f ∧ formatFromAccept (e ++ 44 :: rest) = f := by
+  obtain ⟨sub, hsub, hl⟩ := h
+  have hclean := cleanMime_element e sub hsub
+  have hne : e ≠ [] := by
+    obtain ⟨ws, pre, tail, he, _, _, hs, _, _⟩ := hsub
+    intro h0
+    rw [h0] at he
+    have : sub = [] := by
+      have := congrArg List.length he
+      simp at this
+      exact List.eq_nil_of_length_eq_zero (by omega)
+    exact hs this
+  constructor
+  · rw [formatFromAccept_spec]
+    simp [hne, splitOn_single 44 e hc, hclean, hl]
+  · rw [formatFromAccept_spec]
+    have : e ++ 44 :: rest ≠ [] := by simp
+    simp [this, splitOn_append 44 e rest hc, hclean, hl]
+
+/-! ### HTTP: the content type names the encoding actually used; the other side recovers an equal value -/
+
+theorem mimeDump_names_encoding (c : Codec V) (v : V) (a : Str) (data : Bytes) (mime : Str) (f : Nat)
+    (h : mimeDump c v a = .ok (data, mime, f)) :
+    f = formatFromAccept a ∧ lookup f formatToMimeType = some mime ∧ formatFromAccept mime = f ∧
+      dumpWithoutIdentifier c v f [] = .ok data := by
+  unfold mimeDump at h
+  simp only at h
+  split at h
+  · cases h
+  · split at h
+    · cases h
+    · rename_i m hm
+      split at h
+      · cases h
+      · rename_i d hd
+        injection h with h
+        simp only [Prod.mk.injEq] at h
+        obtain ⟨h1, h2, h3⟩ := h
+        subst h1 h2 h3
+        exact ⟨rfl, hm, (mime_table _ (lookup_mem _ _ _ hm)).1, hd⟩
+
+theorem mimeLoad_mimeDump (c : Codec V) (hc : c.Sound) (v : V) (a : Str) (data : Bytes) (mime : Str) (f : Nat)
+    (h : mimeDump c v a = .ok (data, mime, f)) : mimeLoad c data mime = (f, .ok v) := by
+  obtain ⟨_, hm, hfix, hd⟩ := mimeDump_names_encoding c v a data mime f h
+  have hne : f ≠ 0 := (mime_table _ (lookup_mem _ _ _ hm)).2.1
+  simp only [mimeLoad, hfix, hne, ite_false, loadAsFormat_dumpWithoutIdentifier c hc v f mime hm data hd]
+
+/-- Response side: whatever Accept header the request carries, if data is written then the Content-Type is the
+    mime type of the format used, and `LoadFromHTTPResponse` returns that format and an equal value. -/
+theorem http_response_roundtrip (c : Codec V) (hc : c.Sound) (v : V) (r : Req) (w : Resp)
+    (h : dumpToHTTPResponse c {} r v = (w, none)) :
+    ∃ mime, w.contentType = some mime ∧
+      lookup (formatFromAccept (r.accept.getD [])) formatToMimeType = some mime ∧
+      loadFromHTTPResponse c w = (formatFromAccept (r.accept.getD []), .ok v) := by
+  unfold dumpToHTTPResponse at h
+  split at h
+  · simp at h
+  · rename_i data mime f hmd
+    simp only [Prod.mk.injEq, and_true] at h
+    subst h
+    obtain ⟨hf, hm, _, _⟩ := mimeDump_names_encoding c v _ data mime f hmd
+    subst hf
+    refine ⟨mime, rfl, hm, ?_⟩
+    simpa [loadFromHTTPResponse] using mimeLoad_mimeDump c hc v _ data mime _ hmd
+
+/-- ... and data *is* written for every Accept header that names a supported format or a wildcard (and every
+    value the codecs can encode). -/
+theorem http_response_succeeds (c : Codec V) (v : V) (r : Req) (henc : ∀ l, (c.enc l v).isSome = true)
+    (h : ∃ e ∈ splitOn 44 (r.accept.getD []), (∃ f, NamesFormat e f) ∨ IsWildcard e) :
+    ∃ w, dumpToHTTPResponse c {} r v = (w, none) := by
+  obtain ⟨h1, h2⟩ := accept_named_or_wildcard _ h
+  obtain ⟨mime, hm⟩ := Option.isSome_iff_exists.mp h2
+  obtain ⟨data, hd⟩ := dumpWithoutIdentifier_succeeds c v _ mime hm henc
+  refine ⟨{ contentType := some mime, body := [] ++ data }, ?_⟩
+  simp [dumpToHTTPResponse, mimeDump, h1, hm, hd]
+
+/-- Request side, every format that has a mime type. -/
+theorem http_request_roundtrip (c : Codec V) (hc : c.Sound) (v : V) (r r' : Req) (f : Nat)
+    (h : dumpToHTTPRequest c r v f = (r', none)) :
+    ∃ mime, lookup f formatToMimeType = some mime ∧ r'.accept = some mime ∧ r'.contentType = some mime ∧
+      formatFromAccept mime = f ∧ loadFromHTTPRequest c r' = (f, .ok v) := by
+  unfold dumpToHTTPRequest at h
+  split at h
+  · simp at h
+  · rename_i mime hm
+    simp only at h
+    split at h
+    · simp at h
+    · rename_i data hd
+      simp only [Prod.mk.injEq, and_true] at h
+      subst h
+      have hfix := (mime_table _ (lookup_mem _ _ _ hm)).1
+      have hne : f ≠ 0 := (mime_table _ (lookup_mem _ _ _ hm)).2.1
+      simp only at hfix
+      refine ⟨mime, hm, rfl, rfl, hfix, ?_⟩
+      simp only [loadFromHTTPRequest, Option.getD_some, mimeLoad, hfix, hne, ite_false,
+        loadAsFormat_dumpWithoutIdentifier c hc v f mime hm data hd]
+
+/-- A format without mime type (AUTO, RAW, GenCode, anything else) is refused and the request is left untouched. -/
+theorem http_request_rejects (c : Codec V) (v : V) (r : Req) (f : Nat) (h : lookup f formatToMimeType = none) :
+    dumpToHTTPRequest c r v f = (r, some .incompatible) := by
+  simp [dumpToHTTPRequest, h]
+
+/-- The whole cycle: the client dumps a request in format `f`; the server answers with the format the request's
+    Accept header asks for; the client loads the answer: format `f`, equal value. -/
+theorem http_cycle (c : Codec V) (hc : c.Sound) (v v2 : V) (r r' : Req) (w : Resp) (f : Nat)
+    (h1 : dumpToHTTPRequest c r v f = (r', none)) (h2 : dumpToHTTPResponse c {} r' v2 = (w, none)) :
+    loadFromHTTPRequest c r' = (f, .ok v) ∧ loadFromHTTPResponse c w = (f, .ok v2) := by
+  obtain ⟨mime, _, ha, _, hfix, hl⟩ := http_request_roundtrip c hc v r r' f h1
+  obtain ⟨_, _, _, hl2⟩ := http_response_roundtrip c hc v2 r' w h2
+  rw [ha] at hl2
+  simp only [Option.getD_some, hfix] at hl2
+  exact ⟨hl, hl2⟩
+
 /-! ### Non-vacuity -/
 
 example : dump toy [1, 2] AUTO = .ok [74, 7, 1, 2] ∧ load toy [74, 7, 1, 2] = (JSON, .ok [1, 2]) := by decide
@@ -237,5 +407,29 @@ example : dump toy [] RAW = .ok [1] ∧ load toy [1] = (RAW, .error .israw) := b
 example : load toy [74] = (0, .error .eof) ∧ load toy [] = (0, .error .small) ∧
     load toy [200, 2, 0] = (0, .error .large) ∧ load toy [76, 1] = (0, .error .incompatible) ∧
     load toy [0, 7] = (0, .error .incompatible) ∧ load toy [90, 1] = (0, .error .gunzip) := by decide
+
+example : formatFromAccept (str "application/json;q=0.9, image/webp") = JSON ∧
+    formatFromAccept (str "image/webp, application/cbor") = CBOR ∧ formatFromAccept (str " * , yaml ") = YAML := by decide
+example : formatFromAccept (str "text/xml, text/other") = AUTO ∧ formatFromAccept (str "xml,*") = JSON ∧
+    formatFromAccept (str "text/*") = JSON ∧ formatFromAccept [] = JSON := by decide
+/-- whitespace before `;` is not accepted (pinned by the package's own test) -/
+example : formatFromAccept (str "yaml ;charset") = AUTO := by decide
+/-- Unicode: KELVIN SIGN lower-cases to `k`; NO-BREAK SPACE and IDEOGRAPHIC SPACE are trimmed -/
+example : formatFromAccept (str "application/msgpac\u212a") = MsgPack ∧
+    formatFromAccept (str "\u00a0json\u3000") = JSON := by decide
+example : NamesFormat (str " text/yAMl;q=0.5") YAML :=
+  ⟨str "yAMl", ⟨str " ", str "text/", str ";q=0.5", by decide, by decide, Or.inr ⟨str "text", by decide, by decide⟩,
+    by decide, by decide, Or.inr ⟨str "q=0.5", by decide⟩⟩, by decide⟩
+example : IsWildcard (str "*/*") :=
+  ⟨[], str "*/", [], by decide, by decide, Or.inr ⟨str "*", by decide, by decide⟩, by decide, by decide, Or.inl (by decide)⟩
+example : IsWildcard (str "\t* ") :=
+  ⟨str "\t", [], str " ", by decide, by decide, Or.inl rfl, by decide, by decide, Or.inl (by decide)⟩
+example : dumpToHTTPRequest toy {} [1, 2] CBOR =
+    ({ accept := some (str "application/cbor"), contentType := some (str "application/cbor"), body := some [7, 1, 2] }, none) ∧
+    dumpToHTTPRequest toy {} [1, 2] AUTO = ({}, some .incompatible) := by decide
+example : dumpToHTTPResponse toy {} { accept := some (str "text/html, application/yaml;q=0.9, */*;q=0.8") } [1, 2] =
+    ({ contentType := some (str "application/yaml"), body := [7, 1, 2] }, none) ∧
+    loadFromHTTPResponse toy { contentType := some (str "application/yaml"), body := [7, 1, 2] } = (YAML, .ok [1, 2]) := by
+  decide
 
 end PB.C09
